@@ -68,7 +68,7 @@ Lemma sstep_table s e s' o : SwInv s -> sstep s e = (s', o) ->
     (exists g, aget k (ss_tbl s) = Some g /\ aget k (ss_tbl s') = None /\ expired_at g (ss_now s) = true /\
                exists sw, ss_log s' = mkrem k g (ss_now s) sw :: ss_log s).
 Proof.
-  intros I H. destruct e as [d|k0 ex v|k0 ex|k0|k0| |k0|i k0|i]; cbn [sstep] in H.
+  intros I H. destruct e as [d|k0 ex v|k0 ex|k0|k0| |k0|i k0|i|k0 d0]; cbn [sstep] in H.
   - inversion H; subst; cbn. repeat split; try lia. intros; left; reflexivity.
   - inversion H; subst; cbn. repeat split; try lia. intros k.
     destruct (N.eq_dec k k0) as [->|Hne].
@@ -106,6 +106,11 @@ Proof.
     + repeat split; try lia. intros k. destruct (N.eq_dec k k0) as [->|Hne].
       * right; right. exists c. cbn in Hc, Hex. split; [exact Hc|]. split; [apply aget_adel_same|]. split; [exact Hex|]. exists false. reflexivity.
       * left. apply aget_adel_other. exact Hne.
+  - destruct (aget k0 (ss_tbl s)) as [g|] eqn:Hg; [destruct (expired_at g (ss_now s))|];
+      inversion H; subst; cbn; repeat split; try lia; intros k; try (left; reflexivity);
+      (destruct (N.eq_dec k k0) as [->|Hne];
+       [right; left; rewrite N.eqb_refl; split; [reflexivity|]; intros c Hc; rewrite aget_aset_same in Hc; inversion Hc; cbn; split; [reflexivity | lia]
+       | left; apply aget_aset_other; exact Hne]).
 Qed.
 
 Lemma guarded_remove_fields s k g clock sw :
@@ -124,7 +129,7 @@ Lemma sstep_private s e s' o : SwInv s -> sstep s e = (s', o) ->
       aget i (ss_lazy s) = Some (k, g, t) \/ (aget k (ss_tbl s') = Some g /\ t <= ss_now s')).
 Proof.
   intros I H. pose proof (sw_snow s I) as Hsn.
-  destruct e as [d|k0 ex v|k0 ex|k0|k0| |k0|i0 k0|i0]; cbn [sstep] in H.
+  destruct e as [d|k0 ex v|k0 ex|k0|k0| |k0|i0 k0|i0|k0 d0]; cbn [sstep] in H.
   - inversion H; subst; cbn. split; [lia|]. split; intros; left; assumption.
   - inversion H; subst; cbn. split; [lia|]. split; intros; left; assumption.
   - destruct (aget k0 (ss_tbl s)) as [g|]; [destruct (expired_at g (ss_now s))|]; inversion H; subst; cbn;
@@ -152,6 +157,8 @@ Proof.
     destruct (guarded_remove_fields s1 k0 g t false) as (A & _ & B & C & D). cbv zeta in *. rewrite A, B, C, D. cbn.
     split; [lia|]. split; [intros; left; assumption|].
     intros i k g1 t1 Hi. left. exact (proj1 (aget_adel_some _ _ _ _ Hi)).
+  - destruct (aget k0 (ss_tbl s)) as [g|]; [destruct (expired_at g (ss_now s))|]; inversion H; subst; cbn;
+      (split; [lia|]; split; intros; left; assumption).
 Qed.
 
 Lemma sstep_log s e s' o : SwInv s -> sstep s e = (s', o) ->
@@ -159,7 +166,7 @@ Lemma sstep_log s e s' o : SwInv s -> sstep s e = (s', o) ->
 Proof.
   intros I H r Hr. destruct (sstep_table _ _ _ _ I H) as (_ & _ & Ht).
   (* the log changes only together with a removal *)
-  destruct e as [d|k0 ex v|k0 ex|k0|k0| |k0|i0 k0|i0]; cbn [sstep] in H.
+  destruct e as [d|k0 ex v|k0 ex|k0|k0| |k0|i0 k0|i0|k0 d0]; cbn [sstep] in H.
   - inversion H; subst; left; exact Hr.
   - inversion H; subst; left; exact Hr.
   - destruct (aget k0 (ss_tbl s)) as [g|]; [destruct (expired_at g (ss_now s))|]; inversion H; subst; left; exact Hr.
@@ -181,6 +188,7 @@ Proof.
       cbv zeta in E; inversion H; subst s' o; rewrite E in Hr; cbn in Hr.
     + left; exact Hr.
     + destruct Hr as [<-|Hr]; [right; exact Hex | left; exact Hr].
+  - destruct (aget k0 (ss_tbl s)) as [g|]; [destruct (expired_at g (ss_now s))|]; inversion H; subst; left; exact Hr.
 Qed.
 
 Lemma sstep_inv s e s' o : SwInv s -> sstep s e = (s', o) -> SwInv s'.
